@@ -23,6 +23,8 @@ SVC = "service.SimpleService"
 
 
 def check(run, prog, tier):
+    from . import model as _model
+    _model.audit(run, prog, 'C16')
     run.explanation = (
         "message_received is loop-free: with the two reply builders spliced in, its complete path set (handler "
         "rejection injected) is enumerated; each of the 288 input classes selects exactly one path by evaluating "
@@ -127,7 +129,7 @@ def check(run, prog, tier):
                       if isinstance(v, int) and 0 <= v <= 0x20000)[:3]
     payloads = [b"resp", b""] + [bytes([0x5A]) * n for L in res_lens for n in (L - 1, L, L + 1) if n > 0]
     for svc_v, iv_v, known, mtype, rcode, hres_, multi, fvals, mvals in itertools.product(
-            [0x1111] + other_sid, [3] + other_iv, (True, False), ("REQUEST", "REQUEST_NO_RETURN", "NOTIFICATION", "RESPONSE"), ("E_OK", "E_NOT_OK"),
+            [0x1111] + other_sid, [3] + other_iv, (True, False), tuple(mt), ("E_OK", "E_NOT_OK"),
             [("bytes", pl_) for pl_ in payloads] + [("none", None), ("malformed", None)], (False, True),
             list(itertools.product((False, True), repeat=len(free))), list(itertools.product(*fm_dom))):
         hres, hpay = hres_
